@@ -83,9 +83,12 @@ def gen_traj(rng, tier):
             ncent = 1 if oc else 0
             return b, "O.bias %s %d %d %d x0" % (name, 1 if e else 0, ncent, 1 if wk else 0)
         nb = rng.randint(0, 1)
+        bmeta = []
         for j in range(nb):
-            b, o = bias("h%d" % j, rng.rand() < 0.5)
+            mv = rng.rand() < 0.5
+            b, o = bias("h%d" % j, mv)
             lines.append(cfg(b)); lines.append(o)
+            bmeta.append({"name": "h%d" % j, "moving": mv, "from": -1, "centers": "outputCenters on" in b})
         nsteps = rng.randint(8, 25)
         add_at = rng.randint(2, nsteps - 2) if rng.rand() < 0.6 else -1
         xs = [rng.uniform(-1, 1) for _ in range(ncv)]
@@ -101,13 +104,14 @@ def gen_traj(rng, tier):
             if s_ == add_at:
                 b, o = bias("hx", False)
                 lines.append(cfg(b)); lines.append(o)
+                bmeta.append({"name": "hx", "moving": False, "from": s_, "centers": "outputCenters on" in b})
         lines.append("t.dump %s.colvars.traj" % prefix)
         dump_line = len(lines)
         ra_dump = None
         if cvflags[0][2]:
             lines.append("t.dump %s.x0.runave.traj" % prefix); ra_dump = len(lines)
         cases.append({"lines": lines, "meta": {"freq": freq, "it0": it0, "ncv": ncv, "flags": [(f, e) for (f, e, _, _) in cvflags], "dump": dump_line,
-                                                "ra_dump": ra_dump, "ra": (cvflags[0][2], cvflags[0][3]), "history": hist, "add_at": add_at},
+                                                "ra_dump": ra_dump, "ra": (cvflags[0][2], cvflags[0][3]), "history": hist, "add_at": add_at, "biases": bmeta},
                       "nontrivial": any(any(f[1:]) for (f, e, _, _) in cvflags) or nb > 0})
     return cases
 
@@ -137,6 +141,9 @@ def file_lines(out, ln):
     # order is not recoverable from occurrence numbers across tags, so rebuild from counts: labels and data are
     # interleaved; use the step numbers: a label carries no step, so we rely on per-tag order and the td->tv pairing
     return items
+
+
+CHECKED = {}
 
 
 def oracle(case, out):
@@ -181,6 +188,52 @@ def oracle(case, out):
         if nc != nl:
             viol.append("data line %d (step %d) has %d columns but the preceding label line announces %d" % (occ, tds[occ - 1][0], nc, nl)); return viol
         occ += 1
+    # the values in the columns: the variable's value at that step, the restraint energies, centres and the force applied
+    # to the variable, from their closed forms (harmonic, k = 1, width 0.5, centre 0.3 moving to 1.3 over 50 steps)
+    if "biases" in m:
+        it = m["it0"]; first = True; rows = []
+        for hi, (xs, cont) in enumerate(m["history"]):
+            if first:
+                first = False
+            elif not cont:
+                it += 1
+            if it % freq == 0:
+                rows.append((it, hi, xs))
+        ext0 = bool(m["flags"][0][1])
+
+        def centre(b, t):
+            return 0.3 + (1.3 - 0.3) * min(t - m["it0"], 50) / 50.0 if b["moving"] else 0.3
+        for occ, (t_, hi, xs) in enumerate(rows, 1):
+            tv = out.get((ln, "tv", occ)); tli = out.get((ln, "tli", occ))
+            if tv is None or tli is None:
+                break
+            vals_ = [tok_val(t)[1] for t in tv]
+            li = tok_val(tli[0])[1]
+            if not (1 <= li <= len(tls)):
+                break
+            labels = tls[li - 1][1:]            # without "step"
+            if len(labels) != len(vals_):
+                break                           # (vector columns: not generated here; column counts are checked above)
+            alive = [b for b in m["biases"] if b["from"] < hi]
+            ncent = sum(1 for b in alive if b["centers"])
+            for lab, v in zip(labels, vals_):
+                exp = None; what = None
+                if lab in ("x0", "x1") and not (lab == "x0" and ext0):
+                    exp = xs[int(lab[1])]; what = "the value of %s at step %d" % (lab, t_)
+                elif lab.startswith("E_") and not ext0:
+                    bb = [b for b in alive if b["name"] == lab[2:]]
+                    if bb:
+                        exp = 0.5 * ((xs[0] - centre(bb[0], t_)) / 0.5) ** 2; what = "the energy of restraint %s at step %d" % (lab[2:], t_)
+                elif lab == "x0_x0" and ncent == 1:
+                    bb = [b for b in alive if b["centers"]][0]
+                    exp = centre(bb, t_); what = "the centre of restraint %s at step %d" % (bb["name"], t_)
+                elif lab == "fa_x0" and not ext0:
+                    exp = sum(-(xs[0] - centre(b, t_)) / 0.25 for b in alive); what = "the force applied to x0 at step %d (sum over %d restraints)" % (t_, len(alive))
+                if exp is not None:
+                    CHECKED[lab.split("_")[0] if "_" in lab else "x"] = CHECKED.get(lab.split("_")[0] if "_" in lab else "x", 0) + 1
+                if exp is not None and abs(v - exp) > 1e-9 * max(1.0, abs(exp)):
+                    viol.append("trajectory column %s at step %d holds %r, but %s is %r" % (lab, t_, v, what, exp))
+                    return viol
     # running average and standard deviation: textbook definitions over the window
     if m["ra_dump"]:
         L_, stride = m["ra"]
